@@ -131,7 +131,8 @@ def run_native(oset_name, inputs):
         return {"reproduced": False, "note": f"proof script raised natively: {type(e).__name__}: {e}"}
     if h.assume_violations:
         return {"reproduced": False, "note": "counter-model violates an assumption natively: " + "; ".join(map(str, h.assume_violations[:3]))}
-    return {"reproduced": bool(h.failed), "failed": [f[0] for f in h.failed], "checked": len(h.checked)}
+    return {"reproduced": bool(h.failed), "failed": [f[0] for f in h.failed], "checked": len(h.checked),
+            "checked_names": sorted(set(h.checked))}
 
 
 def search_native(oset_name, seed, tries=4000):
